@@ -40,7 +40,9 @@ Universe == {
 Roots == {c \in Universe : c.id \in {"R", "R2"}}
 ById(id) == CHOOSE c \in Universe : c.id = id
 
-InTime(c, t) == c.nb <= t /\ t <= c.na
+\* NoTime: the validator is called without a validation time (Option::None): validity periods are not checked
+NoTime == 99999
+InTime(c, t) == t = NoTime \/ (c.nb <= t /\ t <= c.na)
 Issues(a, c) == c.iss = a.subj /\ c.signer = a.key /\ a.ca     \* name chaining, signature, issuer is a CA
 
 \* strict reading: the supplied order is the certification path
